@@ -1,6 +1,6 @@
 (* PropC11.v — C11: operators obey the documented value algebra on every operand pair.
-   Statements only; proofs are in ValueProofs.v. *)
-Require Import Calc.Base Calc.Bytecode Calc.Value Calc.ValueProofs.
+   Statements only; proofs are in ValueProofs.v and ValueLaws.v. *)
+Require Import Calc.Base Calc.Bytecode Calc.Value Calc.ValueProofs Calc.ValueLaws.
 From Coq Require Import SpecFloat.
 Open Scope Z_scope.
 
@@ -118,6 +118,62 @@ Theorem C11_index_error_iff : forall s i j,
 Proof. exact index_error_iff. Qed.
 Print Assumptions C11_index_error_iff.
 
+(* ---- the operator families the statement does not spell out: & | ! ~ << >> ---- *)
+
+(* & and | give the same value or the same error whichever way round the operands are written *)
+Theorem C11_logic_commutes : forall op a b, Logic op a b = Logic op b a.
+Proof. exact logic_comm. Qed.
+Print Assumptions C11_logic_commutes.
+
+Theorem C11_logic_associates_bool : forall op x y z r1 r2,
+  Logic op (VBool x) (VBool y) = Ok r1 -> Logic op (VBool y) (VBool z) = Ok r2 ->
+  Logic op r1 (VBool z) = Logic op (VBool x) r2.
+Proof. exact logic_assoc_bool. Qed.
+Print Assumptions C11_logic_associates_bool.
+
+Theorem C11_logic_associates_int : forall op x y z r1 r2,
+  Logic op (VInt x) (VInt y) = Ok r1 -> Logic op (VInt y) (VInt z) = Ok r2 ->
+  Logic op r1 (VInt z) = Logic op (VInt x) r2.
+Proof. exact logic_assoc_int. Qed.
+Print Assumptions C11_logic_associates_int.
+
+(* ! is defined on booleans only, ~ on integers only; each undoes itself; ~ is the bitwise complement; De Morgan *)
+Theorem C11_not_flip_involutive : forall a,
+  (forall r, Not a = Ok r -> Not r = Ok a) /\ (forall r, Flip a = Ok r -> Flip r = Ok a) /\
+  ((exists r, Not a = Ok r) <-> (exists x, a = VBool x)) /\
+  ((exists r, Flip a = Ok r) <-> (exists x, a = VInt x)).
+Proof.
+  intros a. split; [exact (not_involutive a)|]. split; [exact (flip_involutive a)|].
+  split; [exact (not_defined_iff a)|exact (flip_defined_iff a)].
+Qed.
+Print Assumptions C11_not_flip_involutive.
+
+Theorem C11_de_morgan : forall x y,
+  Not (VBool (x && y)) = Logic OR (VBool (negb x)) (VBool (negb y)) /\
+  Not (VBool (x || y)) = Logic AND (VBool (negb x)) (VBool (negb y)).
+Proof. exact de_morgan_bool. Qed.
+Print Assumptions C11_de_morgan.
+
+Theorem C11_flip_is_complement : forall x, Flip (VInt x) = Ok (VInt (Z.lnot x)).
+Proof. exact flip_is_complement. Qed.
+Print Assumptions C11_flip_is_complement.
+
+(* shifts: never an error on two integers and always a 64-bit result; a count outside 0..63, negative
+   counts included, gives 0 (no error: the behaviour of the pinned code, taken as defined); a zero count
+   is the identity *)
+Theorem C11_shift_total : forall op x y, exists r, Shift op (VInt x) (VInt y) = Ok (VInt r) /\ in_int64 r = true.
+Proof. exact shift_int_total. Qed.
+Print Assumptions C11_shift_total.
+
+Theorem C11_shift_count_out_of_range : forall op x y,
+  in_int64 y = true -> ~ (0 <= y < 64) -> Shift op (VInt x) (VInt y) = Ok (VInt 0).
+Proof. exact shift_count_out_of_range. Qed.
+Print Assumptions C11_shift_count_out_of_range.
+
+Theorem C11_shift_zero_is_identity : forall op x, in_int64 x = true -> Shift op (VInt x) (VInt 0) = Ok (VInt x).
+Proof. exact shift_zero. Qed.
+Print Assumptions C11_shift_zero_is_identity.
+
 (* non-vacuity *)
 Example C11_examples :
   Arith DIV (VInt (-7)) (VInt 2) = Ok (VInt (-3)) /\
@@ -126,5 +182,7 @@ Example C11_examples :
   EqOp EQ (VArr [VInt 1; VStr "a"]) (VArr [VFloat 1%float; VStr "a"]) = Ok (VBool true) /\
   Index2 (VStr "apple") (VInt 1) (VInt 3) = Ok (VStr "pp") /\
   Shift RSH (VInt (-8)) (VInt 1) = Ok (VInt 9223372036854775804) /\
+  Shift LSH (VInt 1) (VInt (-1)) = Ok (VInt 0) /\ Shift LSH (VInt 1) (VInt 63) = Ok (VInt (-9223372036854775808)) /\
+  Logic AND (VInt 6) (VInt 3) = Ok (VInt 2) /\ Logic OR (VInt 1) VNil = Fail ErrNil /\ Flip (VInt 5) = Ok (VInt (-6)) /\
   feq (z2f 9007199254740993) (z2f 9007199254740993) = true.
 Proof. repeat split; vm_compute; reflexivity. Qed.
